@@ -133,3 +133,143 @@ def state_hit_full_meta(ck: Checker, rule: str) -> None:
                    f"a state hit serves metadata built as `{norm(srcs[0])[:60] if srcs and srcs[0] is not None else '?'}`, not Meta.from_info({info_p}): fields the stat carries (is_link, destination, nlink ...) are lost, so a workspace file whose hash comes from the state looks like an independent copy and a relinking checkout leaves links into the cache in place",
                    construct=f"{r.text()[:40]} / full stat metadata")
     ck.floor(rule, n_r, 1, "(meta, hash) returns of State._get")
+
+
+def on_error_names_oid(ck: Checker, rule: str) -> None:
+    """HashFileDB.add: the post-copy handler reports the failing object by its *oid* (the loop's key), which is what
+    transfer's failure set is keyed by - not by its path in the store."""
+    fn = ck.prog.func("hashfile.db", "HashFileDB.add")
+    g = ck.cfg(fn)
+    reps = [(n, c) for n in g.nodes.values() for c in calls_at(n) if isinstance(c.func, ast.Name) and c.func.id == "on_error" and n.loops]
+    ck.floor(rule, len(reps), 1, "on_error calls in the post-copy loop of HashFileDB.add")
+    for n, c in reps:
+        h = g.nodes[n.loops[-1]]
+        tgt = h.ast.target
+        key = tgt.elts[0] if isinstance(tgt, (ast.Tuple, ast.List)) and tgt.elts else tgt
+        a0 = c.args[0] if c.args else None
+        # a loop over `.items()` binds (oid, path); a loop over the oids binds the oid
+        it = h.ast.iter
+        over_items = isinstance(it, ast.Call) and is_method_call(it, "items")
+        ok = a0 is not None and norm(a0) == norm(key) and (over_items or not isinstance(tgt, (ast.Tuple, ast.List)))
+        if ok and over_items:
+            # the dict must be keyed by oid: {o: self.oid_to_path(o) for o in oids}
+            src = it.func.value
+            if isinstance(src, ast.Name):
+                ds = [d for d in scope_of(fn).get(src.id) if d.kind in ("assign", "annassign") and isinstance(d.value, ast.DictComp)]
+                if ds:
+                    dc = ds[0].value
+                    ok = isinstance(dc.key, ast.Name) and dc.key.id == norm(dc.generators[0].target) and "oid_to_path" in norm(dc.value)
+        ck.require(ok, rule, fn, n, "a rejected object is reported under its oid",
+                   f"`{norm(c)[:50]}` reports the rejected object as `{norm(a0) if a0 is not None else '?'}` instead of its oid: transfer() records a failure under an id nobody asked for, so the real object counts as transferred and a directory that shares it is sent although the file is absent",
+                   construct=f"{norm(c)[:40]} / names the oid")
+
+
+def protect_always_chmods(ck: Checker, rule: str) -> None:
+    """LocalHashFileDB.protect: every normal path changes the mode (a failing chmod may be tolerated, skipping it may
+    not): an intact object that is never marked read-only is re-hashed on every query and never 'trusted'."""
+    fn = ck.prog.func("hashfile.db.local", "LocalHashFileDB.protect")
+    g = ck.cfg(fn)
+    ch = {n.id for n in g.nodes.values() for c in calls_at(n) if call_name(c) == "chmod"}
+    ck.floor(rule, len(ch), 1, "chmod calls in LocalHashFileDB.protect")
+    r = g.reach([g.entry], skip_node=lambda x: x.id in ch, skip_edge=lambda a, l, b: l == "exc")
+    ck.require(g.exit not in r, rule, fn, fn.node, "protect changes the mode on every normal path",
+               "LocalHashFileDB.protect can return without changing the mode (e.g. for a store opened read-only): objects that passed the integrity check are never marked, so they stay writable and are re-hashed by every later existence query",
+               witness=g.fmt_path(g.path_to(r, g.exit)) if g.exit in r else None, construct="protect / always chmod")
+
+
+def exists_missing_only_by_check(ck: Checker, rule: str) -> None:
+    """LocalHashFileDB.oids_exist: an oid is answered 'missing' only because check() raised for it - never from cached
+    knowledge about the store's layout (another handle / process may have added the object meanwhile)."""
+    fn = ck.prog.func("hashfile.db.local", "LocalHashFileDB.oids_exist")
+    g = ck.cfg(fn)
+    loops = [h for h in g.nodes.values() if h.kind == "for" and len(h.loops) == 1]
+    ck.floor(rule, len(loops), 1, "per-oid loop in oids_exist")
+    for h in loops:
+        lv = norm(h.ast.target)
+        chk = {n.id for n in g.nodes.values() if h.id in n.loops for c in calls_at(n) if is_method_call(c, "check") and norm(c.func.value) == "self" and c.args and norm(c.args[0]) == lv}
+        r = g.reach([d for lab, d in h.succ if lab == "T"], skip_node=lambda x: x.id in chk, skip_edge=lambda a, l, b: False)
+        bad = h.id in r
+        ck.require(bool(chk) and not bad, rule, fn, h, "every queried oid goes through check()",
+                   "an oid can be answered 'missing' without check() having been asked (e.g. because its prefix directory is not in a cached listing): an object added through another handle or process is reported absent and is needlessly re-sent / reported as missing",
+                   witness=g.fmt_path(g.path_to(r, h.id)) if bad else None, construct=f"for {lv} in ... / always checked")
+
+
+def view_loads_only_unloaded(ck: Checker, rule: str) -> None:
+    """DataIndexView._load_dir_keys: the keys of a directory are yielded by this helper only when it has just loaded
+    the directory (`not entry.loaded`): for an already loaded directory the trie traversal yields them itself, and
+    yielding them here as well duplicates every child on the second and later passes."""
+    fn = ck.prog.func("index.view", "DataIndexView._load_dir_keys")
+    g = ck.cfg(fn)
+    ys = [n for n in g.nodes.values() if yields_at(n)]
+    ck.floor(rule, len(ys), 1, "yields in _load_dir_keys")
+
+    def unloaded(a, lab):
+        if a.kind != "test":
+            return False
+        t = norm(a.ast)
+        return (t.endswith(".loaded") and not t.startswith("not ") and lab == "F") or (t.startswith("not ") and t.endswith(".loaded") and lab == "T")
+
+    from ..an import cut
+
+    for y in ys:
+        w = cut(g, [y.id], unloaded)
+        ck.require(w is None, rule, fn, y, "children are yielded here only for a directory that was not loaded yet",
+                   "the children of a directory are yielded by the in-place-load helper even when the directory was already loaded: the traversal yields them too, so from the second pass on every child of a loaded directory appears twice in the view",
+                   witness=g.fmt_path(w) if w else None, construct=f"{y.text()[:40]} / only when just loaded")
+
+
+def from_list_splits_raw_relpath(ck: Checker, rule: str) -> None:
+    """Tree.from_list: the key tuple is the stored relative path split on the separator as stored - the reader applies
+    no rewriting of the string the writer joined (a literal backslash is a legal POSIX file-name character)."""
+    fn = ck.prog.func("hashfile.tree", "Tree.from_list")
+    sp = [c for c in walk_own(fn.node) if isinstance(c, ast.Call) and is_method_call(c, "split", "rsplit")]
+    ck.floor(rule, len(sp), 1, "split of the stored relative path in Tree.from_list")
+    for c in sp:
+        recv = c.func.value
+        ok = False
+        if isinstance(recv, ast.Name):
+            ds = [d for d in scope_of(fn).get(recv.id) if d.kind in ("assign", "annassign")]
+            ok = bool(ds) and all(isinstance(d.value, (ast.Call, ast.Subscript)) and (is_method_call(d.value, "pop", "get") if isinstance(d.value, ast.Call) else True) for d in ds)
+        elif isinstance(recv, ast.Call) and is_method_call(recv, "pop", "get"):
+            ok = True
+        elif isinstance(recv, ast.Subscript):
+            ok = True
+        ck.require(ok, rule, fn, c, "the stored relative path is split as stored",
+                   f"the key is derived from `{norm(recv)[:50]}`, a rewritten form of the stored relative path (e.g. backslashes replaced): a file whose name contains such a character comes back under a different key than the one that was written - an entry is renamed, or merged into another",
+                   construct=f"{norm(c)[:50]} / raw relpath")
+
+
+def failed_copy_never_trusted(ck: Checker, rule: str) -> None:
+    """HashFileDB.add: an object whose copy was reported as failed is re-hashed (check with hashing on) before it can be
+    write-protected - whatever the verify setting.  dvc_objects' batched copy reports a broken download through on_error
+    from inside its atomic-write block, so truncated bytes can sit under the object's final name."""
+    fn = ck.prog.func("hashfile.db", "HashFileDB.add")
+    g = ck.cfg(fn)
+    # sets filled by a local on_error wrapper with the failing oid
+    failed = set()
+    for child in fn.children.values():
+        for x in walk_own(child.node):
+            if isinstance(x, ast.Call) and is_method_call(x, "add") and x.args and isinstance(x.args[0], ast.Name) and child.has_param(x.args[0].id) and isinstance(x.func.value, ast.Name):
+                failed.add(x.func.value.id)
+    sup = [c for n in g.nodes.values() for c in calls_at(n) if isinstance(c.func, ast.Attribute) and c.func.attr == "add" and norm(c.func.value).startswith("super(")]
+    wrapped = any(isinstance(k.value, ast.Name) and k.value.id in fn.children for c in sup for k in c.keywords if k.arg == "on_error")
+    prots = [n for n in g.nodes.values() for c in calls_at(n) if is_method_call(c, "protect") and norm(c.func.value) == "self" and n.loops]
+    ck.floor(rule, len(prots), 1, "per-object protect in HashFileDB.add")
+    for n in prots:
+        h = g.nodes[n.loops[-1]]
+        chk = {m.id for m in g.nodes.values() if h.id in m.loops for c2 in calls_at(m) if is_method_call(c2, "check") and norm(c2.func.value) == "self"
+               and not any(k.arg == "check_hash" and isinstance(k.value, ast.Constant) and k.value.value is False for k in c2.keywords)}
+
+        def not_failed(a, lab, b):
+            if lab == "exc":
+                return True
+            e = a.ast
+            if a.kind == "test" and isinstance(e, ast.Compare) and len(e.ops) == 1 and isinstance(e.ops[0], (ast.In, ast.NotIn)) and norm(e.comparators[0]) in failed:
+                return (isinstance(e.ops[0], ast.In) and lab == "F") or (isinstance(e.ops[0], ast.NotIn) and lab == "T")
+            return False
+
+        r = g.reach([d for lab, d in h.succ if lab == "T"], skip_node=lambda x: x.id in chk, skip_edge=not_failed)
+        ok = bool(failed) and wrapped and n.id not in r
+        ck.require(ok, rule, fn, n, "an object whose copy was reported as failed is re-hashed before it may be protected",
+                   "an object whose copy was reported as failed can still be write-protected without being re-hashed (verification off): a truncated download that the copy left under the object's final name becomes a trusted object that no later integrity check examines",
+                   construct=f"{n.text()[:40]} / failed copies re-hashed")
